@@ -241,7 +241,7 @@ var exprs = []string{
 	// method sets: func-typed fields named like methods (also promoted / behind a pointer), promoted methods, embedded interfaces
 	"ghook", "&ghook", "ghooke", "&ghooke", "ghooks", "&ghooks", "ghookm", "ghookw", "&ghookw", "gwr", "&gwr", "gerre", "&gerre", "gIE", "struct{ Error func() string }{}", "&struct{ String func() string }{}",
 	// locals, parameters, type parameters
-	"loc", "lp", "prm", "vs", "t", "u", "n", "&t",
+	"loc", "lp", "prm", "vs", "t", "u", "n", "&t", "lt", "[2]LT{}", "&lt",
 	// selectors, qualified identifiers
 	"gS.a", "gSP.s.b", "gSP.p", "(gS).b", "strings.ToUpper", "os.Stdout", "os.Args", "gimpl.M", "Impl.M", "gG.v", "fmt.Sprint",
 	// calls, conversions, builtins
@@ -436,7 +436,7 @@ func targetSource() string {
 		}
 		sb.WriteString("\n")
 	}
-	sb.WriteString("\nfunc sites[T any, U ~int64, N Num](t T, u U, n N, prm int, vs ...string) (int, error) {\n\tloc := 5\n\tlp := &loc\n\t_, _ = loc, lp\n")
+	sb.WriteString("\nfunc sites[T any, U ~int64, N Num](t T, u U, n N, prm int, vs ...string) (int, error) {\n\tloc := 5\n\tlp := &loc\n\t_, _ = loc, lp\n\ttype LT struct{ a int64 }\n\tvar lt LT\n")
 	for _, e := range exprs {
 		e := e
 		row(func(j int) string { return fmt.Sprintf("p%d(%s)", j, e) })
@@ -469,6 +469,14 @@ func targetSource() string {
 	sb.WriteString("func other(a int, b []string) int {\n")
 	row(func(j int) string { return fmt.Sprintf("p%d(b)", j) })
 	row(func(j int) string { return fmt.Sprintf("p%d(a)", j) })
+	// distinct types that print alike (types.Type.String()) and differ in every fact: equally named types local to two
+	// functions (the one of `sites` first, then a larger one with pointers, then the small one again), a local type that
+	// shadows a package-level one, arrays and pointers of them
+	sb.WriteString("\ttype LT struct {\n\t\tp *int\n\t\tq string\n\t}\n\ttype S []int\n\tvar lt LT\n\tvar ls S\n")
+	for _, ex := range []string{"lt", "[2]LT{}", "&lt", "ls", "S{}"} {
+		ex := ex
+		row(func(j int) string { return fmt.Sprintf("p%d(%s)", j, ex) })
+	}
 	sb.WriteString("\tfl := func() int64 {\n")
 	for j := 0; j < W; j++ {
 		fmt.Fprintf(&sb, "\t\tif gb {\n\t\t\treturn int64(r%d())\n\t\t}\n", j)
@@ -479,7 +487,11 @@ func targetSource() string {
 	}
 	sb.WriteString("\treturn 0\n}\n")
 	// the match is the second result
-	sb.WriteString("func second() (string, int) {\n")
+	sb.WriteString("func second() (string, int) {\n\ttype LT struct{ a int64 }\n\tvar lt LT\n")
+	for _, ex := range []string{"lt", "[2]LT{}", "&lt", "gS"} {
+		ex := ex
+		row(func(j int) string { return fmt.Sprintf("p%d(%s)", j, ex) })
+	}
 	for j := 0; j < W; j++ {
 		fmt.Fprintf(&sb, "\tif gb {\n\t\treturn \"a\", r%d()\n\t}\n", j)
 	}
